@@ -7,15 +7,24 @@ theories/Conc/Pool.vos theories/Conc/Pool.vok theories/Conc/Pool.required_vos: t
 theories/Conc/PoolProofs.vo theories/Conc/PoolProofs.glob theories/Conc/PoolProofs.v.beautified theories/Conc/PoolProofs.required_vo: theories/Conc/PoolProofs.v theories/Conc/Pool.vo
 theories/Conc/PoolProofs.vio: theories/Conc/PoolProofs.v theories/Conc/Pool.vio
 theories/Conc/PoolProofs.vos theories/Conc/PoolProofs.vok theories/Conc/PoolProofs.required_vos: theories/Conc/PoolProofs.v theories/Conc/Pool.vos
+theories/Conc/RefActs.vo theories/Conc/RefActs.glob theories/Conc/RefActs.v.beautified theories/Conc/RefActs.required_vo: theories/Conc/RefActs.v theories/Conc/Pool.vo theories/Conc/PoolProofs.vo theories/Conc/RefCnt.vo theories/Conc/RefInv.vo theories/Conc/RefExcl.vo theories/Conc/RefStep.vo
+theories/Conc/RefActs.vio: theories/Conc/RefActs.v theories/Conc/Pool.vio theories/Conc/PoolProofs.vio theories/Conc/RefCnt.vio theories/Conc/RefInv.vio theories/Conc/RefExcl.vio theories/Conc/RefStep.vio
+theories/Conc/RefActs.vos theories/Conc/RefActs.vok theories/Conc/RefActs.required_vos: theories/Conc/RefActs.v theories/Conc/Pool.vos theories/Conc/PoolProofs.vos theories/Conc/RefCnt.vos theories/Conc/RefInv.vos theories/Conc/RefExcl.vos theories/Conc/RefStep.vos
 theories/Conc/RefCnt.vo theories/Conc/RefCnt.glob theories/Conc/RefCnt.v.beautified theories/Conc/RefCnt.required_vo: theories/Conc/RefCnt.v theories/Conc/Pool.vo
 theories/Conc/RefCnt.vio: theories/Conc/RefCnt.v theories/Conc/Pool.vio
 theories/Conc/RefCnt.vos theories/Conc/RefCnt.vok theories/Conc/RefCnt.required_vos: theories/Conc/RefCnt.v theories/Conc/Pool.vos
+theories/Conc/RefExcl.vo theories/Conc/RefExcl.glob theories/Conc/RefExcl.v.beautified theories/Conc/RefExcl.required_vo: theories/Conc/RefExcl.v theories/Conc/Pool.vo theories/Conc/PoolProofs.vo theories/Conc/RefCnt.vo theories/Conc/RefInv.vo
+theories/Conc/RefExcl.vio: theories/Conc/RefExcl.v theories/Conc/Pool.vio theories/Conc/PoolProofs.vio theories/Conc/RefCnt.vio theories/Conc/RefInv.vio
+theories/Conc/RefExcl.vos theories/Conc/RefExcl.vok theories/Conc/RefExcl.required_vos: theories/Conc/RefExcl.v theories/Conc/Pool.vos theories/Conc/PoolProofs.vos theories/Conc/RefCnt.vos theories/Conc/RefInv.vos
 theories/Conc/RefInv.vo theories/Conc/RefInv.glob theories/Conc/RefInv.v.beautified theories/Conc/RefInv.required_vo: theories/Conc/RefInv.v theories/Conc/Pool.vo theories/Conc/PoolProofs.vo theories/Conc/RefCnt.vo
 theories/Conc/RefInv.vio: theories/Conc/RefInv.v theories/Conc/Pool.vio theories/Conc/PoolProofs.vio theories/Conc/RefCnt.vio
 theories/Conc/RefInv.vos theories/Conc/RefInv.vok theories/Conc/RefInv.required_vos: theories/Conc/RefInv.v theories/Conc/Pool.vos theories/Conc/PoolProofs.vos theories/Conc/RefCnt.vos
 theories/Conc/RefProofs.vo theories/Conc/RefProofs.glob theories/Conc/RefProofs.v.beautified theories/Conc/RefProofs.required_vo: theories/Conc/RefProofs.v theories/Conc/Pool.vo theories/Conc/RefCnt.vo
 theories/Conc/RefProofs.vio: theories/Conc/RefProofs.v theories/Conc/Pool.vio theories/Conc/RefCnt.vio
 theories/Conc/RefProofs.vos theories/Conc/RefProofs.vok theories/Conc/RefProofs.required_vos: theories/Conc/RefProofs.v theories/Conc/Pool.vos theories/Conc/RefCnt.vos
+theories/Conc/RefStep.vo theories/Conc/RefStep.glob theories/Conc/RefStep.v.beautified theories/Conc/RefStep.required_vo: theories/Conc/RefStep.v theories/Conc/Pool.vo theories/Conc/PoolProofs.vo theories/Conc/RefCnt.vo theories/Conc/RefInv.vo theories/Conc/RefExcl.vo
+theories/Conc/RefStep.vio: theories/Conc/RefStep.v theories/Conc/Pool.vio theories/Conc/PoolProofs.vio theories/Conc/RefCnt.vio theories/Conc/RefInv.vio theories/Conc/RefExcl.vio
+theories/Conc/RefStep.vos theories/Conc/RefStep.vok theories/Conc/RefStep.required_vos: theories/Conc/RefStep.v theories/Conc/Pool.vos theories/Conc/PoolProofs.vos theories/Conc/RefCnt.vos theories/Conc/RefInv.vos theories/Conc/RefExcl.vos
 theories/Conc/RwMutexInv.vo theories/Conc/RwMutexInv.glob theories/Conc/RwMutexInv.v.beautified theories/Conc/RwMutexInv.required_vo: theories/Conc/RwMutexInv.v theories/Conc/RwMutexModel.vo theories/Conc/RwMutexProofs.vo
 theories/Conc/RwMutexInv.vio: theories/Conc/RwMutexInv.v theories/Conc/RwMutexModel.vio theories/Conc/RwMutexProofs.vio
 theories/Conc/RwMutexInv.vos theories/Conc/RwMutexInv.vok theories/Conc/RwMutexInv.required_vos: theories/Conc/RwMutexInv.v theories/Conc/RwMutexModel.vos theories/Conc/RwMutexProofs.vos
@@ -40,27 +49,48 @@ theories/Conc/TPoolLemmas.vos theories/Conc/TPoolLemmas.vok theories/Conc/TPoolL
 theories/Conc/TPoolStep.vo theories/Conc/TPoolStep.glob theories/Conc/TPoolStep.v.beautified theories/Conc/TPoolStep.required_vo: theories/Conc/TPoolStep.v theories/Conc/TPool.vo theories/Conc/TPoolLemmas.vo theories/Conc/TPoolInv.vo
 theories/Conc/TPoolStep.vio: theories/Conc/TPoolStep.v theories/Conc/TPool.vio theories/Conc/TPoolLemmas.vio theories/Conc/TPoolInv.vio
 theories/Conc/TPoolStep.vos theories/Conc/TPoolStep.vok theories/Conc/TPoolStep.required_vos: theories/Conc/TPoolStep.v theories/Conc/TPool.vos theories/Conc/TPoolLemmas.vos theories/Conc/TPoolInv.vos
+theories/Conc/TPoolTrace.vo theories/Conc/TPoolTrace.glob theories/Conc/TPoolTrace.v.beautified theories/Conc/TPoolTrace.required_vo: theories/Conc/TPoolTrace.v theories/Conc/TPool.vo theories/Conc/TPoolLemmas.vo theories/Conc/TPoolInv.vo theories/Conc/TPoolStep.vo
+theories/Conc/TPoolTrace.vio: theories/Conc/TPoolTrace.v theories/Conc/TPool.vio theories/Conc/TPoolLemmas.vio theories/Conc/TPoolInv.vio theories/Conc/TPoolStep.vio
+theories/Conc/TPoolTrace.vos theories/Conc/TPoolTrace.vok theories/Conc/TPoolTrace.required_vos: theories/Conc/TPoolTrace.v theories/Conc/TPool.vos theories/Conc/TPoolLemmas.vos theories/Conc/TPoolInv.vos theories/Conc/TPoolStep.vos
 theories/Conc/ThreadQ.vo theories/Conc/ThreadQ.glob theories/Conc/ThreadQ.v.beautified theories/Conc/ThreadQ.required_vo: theories/Conc/ThreadQ.v 
 theories/Conc/ThreadQ.vio: theories/Conc/ThreadQ.v 
 theories/Conc/ThreadQ.vos theories/Conc/ThreadQ.vok theories/Conc/ThreadQ.required_vos: theories/Conc/ThreadQ.v 
 theories/Conc/ThreadQProofs.vo theories/Conc/ThreadQProofs.glob theories/Conc/ThreadQProofs.v.beautified theories/Conc/ThreadQProofs.required_vo: theories/Conc/ThreadQProofs.v theories/Conc/ThreadQ.vo
 theories/Conc/ThreadQProofs.vio: theories/Conc/ThreadQProofs.v theories/Conc/ThreadQ.vio
 theories/Conc/ThreadQProofs.vos theories/Conc/ThreadQProofs.vok theories/Conc/ThreadQProofs.required_vos: theories/Conc/ThreadQProofs.v theories/Conc/ThreadQ.vos
+theories/Conc/ThreadQWf.vo theories/Conc/ThreadQWf.glob theories/Conc/ThreadQWf.v.beautified theories/Conc/ThreadQWf.required_vo: theories/Conc/ThreadQWf.v theories/Conc/ThreadQ.vo
+theories/Conc/ThreadQWf.vio: theories/Conc/ThreadQWf.v theories/Conc/ThreadQ.vio
+theories/Conc/ThreadQWf.vos theories/Conc/ThreadQWf.vok theories/Conc/ThreadQWf.required_vos: theories/Conc/ThreadQWf.v theories/Conc/ThreadQ.vos
 theories/Cont/HtIdeal.vo theories/Cont/HtIdeal.glob theories/Cont/HtIdeal.v.beautified theories/Cont/HtIdeal.required_vo: theories/Cont/HtIdeal.v theories/Cont/HtModel.vo
 theories/Cont/HtIdeal.vio: theories/Cont/HtIdeal.v theories/Cont/HtModel.vio
 theories/Cont/HtIdeal.vos theories/Cont/HtIdeal.vok theories/Cont/HtIdeal.required_vos: theories/Cont/HtIdeal.v theories/Cont/HtModel.vos
+theories/Cont/HtIters.vo theories/Cont/HtIters.glob theories/Cont/HtIters.v.beautified theories/Cont/HtIters.required_vo: theories/Cont/HtIters.v theories/Cont/HtModel.vo theories/Cont/HtLemmas.vo
+theories/Cont/HtIters.vio: theories/Cont/HtIters.v theories/Cont/HtModel.vio theories/Cont/HtLemmas.vio
+theories/Cont/HtIters.vos theories/Cont/HtIters.vok theories/Cont/HtIters.required_vos: theories/Cont/HtIters.v theories/Cont/HtModel.vos theories/Cont/HtLemmas.vos
 theories/Cont/HtLemmas.vo theories/Cont/HtLemmas.glob theories/Cont/HtLemmas.v.beautified theories/Cont/HtLemmas.required_vo: theories/Cont/HtLemmas.v theories/Cont/HtModel.vo
 theories/Cont/HtLemmas.vio: theories/Cont/HtLemmas.v theories/Cont/HtModel.vio
 theories/Cont/HtLemmas.vos theories/Cont/HtLemmas.vok theories/Cont/HtLemmas.required_vos: theories/Cont/HtLemmas.v theories/Cont/HtModel.vos
 theories/Cont/HtModel.vo theories/Cont/HtModel.glob theories/Cont/HtModel.v.beautified theories/Cont/HtModel.required_vo: theories/Cont/HtModel.v 
 theories/Cont/HtModel.vio: theories/Cont/HtModel.v 
 theories/Cont/HtModel.vos theories/Cont/HtModel.vok theories/Cont/HtModel.required_vos: theories/Cont/HtModel.v 
+theories/Cont/HtMoves.vo theories/Cont/HtMoves.glob theories/Cont/HtMoves.v.beautified theories/Cont/HtMoves.required_vo: theories/Cont/HtMoves.v theories/Cont/HtModel.vo theories/Cont/HtLemmas.vo theories/Cont/HtRepr.vo theories/Cont/HtWalk.vo theories/Cont/HtIters.vo theories/Cont/HtTable.vo
+theories/Cont/HtMoves.vio: theories/Cont/HtMoves.v theories/Cont/HtModel.vio theories/Cont/HtLemmas.vio theories/Cont/HtRepr.vio theories/Cont/HtWalk.vio theories/Cont/HtIters.vio theories/Cont/HtTable.vio
+theories/Cont/HtMoves.vos theories/Cont/HtMoves.vok theories/Cont/HtMoves.required_vos: theories/Cont/HtMoves.v theories/Cont/HtModel.vos theories/Cont/HtLemmas.vos theories/Cont/HtRepr.vos theories/Cont/HtWalk.vos theories/Cont/HtIters.vos theories/Cont/HtTable.vos
+theories/Cont/HtPut.vo theories/Cont/HtPut.glob theories/Cont/HtPut.v.beautified theories/Cont/HtPut.required_vo: theories/Cont/HtPut.v theories/Cont/HtModel.vo theories/Cont/HtLemmas.vo theories/Cont/HtRepr.vo theories/Cont/HtWalk.vo theories/Cont/HtIters.vo theories/Cont/HtTable.vo theories/Cont/HtMoves.vo
+theories/Cont/HtPut.vio: theories/Cont/HtPut.v theories/Cont/HtModel.vio theories/Cont/HtLemmas.vio theories/Cont/HtRepr.vio theories/Cont/HtWalk.vio theories/Cont/HtIters.vio theories/Cont/HtTable.vio theories/Cont/HtMoves.vio
+theories/Cont/HtPut.vos theories/Cont/HtPut.vok theories/Cont/HtPut.required_vos: theories/Cont/HtPut.v theories/Cont/HtModel.vos theories/Cont/HtLemmas.vos theories/Cont/HtRepr.vos theories/Cont/HtWalk.vos theories/Cont/HtIters.vos theories/Cont/HtTable.vos theories/Cont/HtMoves.vos
 theories/Cont/HtRepr.vo theories/Cont/HtRepr.glob theories/Cont/HtRepr.v.beautified theories/Cont/HtRepr.required_vo: theories/Cont/HtRepr.v theories/Cont/HtModel.vo theories/Cont/HtLemmas.vo
 theories/Cont/HtRepr.vio: theories/Cont/HtRepr.v theories/Cont/HtModel.vio theories/Cont/HtLemmas.vio
 theories/Cont/HtRepr.vos theories/Cont/HtRepr.vok theories/Cont/HtRepr.required_vos: theories/Cont/HtRepr.v theories/Cont/HtModel.vos theories/Cont/HtLemmas.vos
 theories/Cont/HtStep.vo theories/Cont/HtStep.glob theories/Cont/HtStep.v.beautified theories/Cont/HtStep.required_vo: theories/Cont/HtStep.v theories/Cont/HtModel.vo
 theories/Cont/HtStep.vio: theories/Cont/HtStep.v theories/Cont/HtModel.vio
 theories/Cont/HtStep.vos theories/Cont/HtStep.vok theories/Cont/HtStep.required_vos: theories/Cont/HtStep.v theories/Cont/HtModel.vos
+theories/Cont/HtTable.vo theories/Cont/HtTable.glob theories/Cont/HtTable.v.beautified theories/Cont/HtTable.required_vo: theories/Cont/HtTable.v theories/Cont/HtModel.vo theories/Cont/HtLemmas.vo theories/Cont/HtRepr.vo theories/Cont/HtWalk.vo theories/Cont/HtIters.vo
+theories/Cont/HtTable.vio: theories/Cont/HtTable.v theories/Cont/HtModel.vio theories/Cont/HtLemmas.vio theories/Cont/HtRepr.vio theories/Cont/HtWalk.vio theories/Cont/HtIters.vio
+theories/Cont/HtTable.vos theories/Cont/HtTable.vok theories/Cont/HtTable.required_vos: theories/Cont/HtTable.v theories/Cont/HtModel.vos theories/Cont/HtLemmas.vos theories/Cont/HtRepr.vos theories/Cont/HtWalk.vos theories/Cont/HtIters.vos
+theories/Cont/HtWalk.vo theories/Cont/HtWalk.glob theories/Cont/HtWalk.v.beautified theories/Cont/HtWalk.required_vo: theories/Cont/HtWalk.v theories/Cont/HtModel.vo theories/Cont/HtLemmas.vo theories/Cont/HtRepr.vo
+theories/Cont/HtWalk.vio: theories/Cont/HtWalk.v theories/Cont/HtModel.vio theories/Cont/HtLemmas.vio theories/Cont/HtRepr.vio
+theories/Cont/HtWalk.vos theories/Cont/HtWalk.vok theories/Cont/HtWalk.required_vos: theories/Cont/HtWalk.v theories/Cont/HtModel.vos theories/Cont/HtLemmas.vos theories/Cont/HtRepr.vos
 theories/Cont/QueueEnsure.vo theories/Cont/QueueEnsure.glob theories/Cont/QueueEnsure.v.beautified theories/Cont/QueueEnsure.required_vo: theories/Cont/QueueEnsure.v theories/Cont/QueueModel.vo theories/Cont/QueueLemmas.vo theories/Cont/QueueInv.vo theories/Cont/QueueOps1.vo
 theories/Cont/QueueEnsure.vio: theories/Cont/QueueEnsure.v theories/Cont/QueueModel.vio theories/Cont/QueueLemmas.vio theories/Cont/QueueInv.vio theories/Cont/QueueOps1.vio
 theories/Cont/QueueEnsure.vos theories/Cont/QueueEnsure.vok theories/Cont/QueueEnsure.required_vos: theories/Cont/QueueEnsure.v theories/Cont/QueueModel.vos theories/Cont/QueueLemmas.vos theories/Cont/QueueInv.vos theories/Cont/QueueOps1.vos
@@ -109,6 +139,9 @@ theories/Cont/StrProofs.vos theories/Cont/StrProofs.vok theories/Cont/StrProofs.
 theories/Flt/FltArchive.vo theories/Flt/FltArchive.glob theories/Flt/FltArchive.v.beautified theories/Flt/FltArchive.required_vo: theories/Flt/FltArchive.v theories/Gen/Consts.vo theories/Msg/MsgDefs.vo theories/Msg/MsgModel.vo theories/Msg/MsgApi.vo theories/Flt/FltModel.vo
 theories/Flt/FltArchive.vio: theories/Flt/FltArchive.v theories/Gen/Consts.vio theories/Msg/MsgDefs.vio theories/Msg/MsgModel.vio theories/Msg/MsgApi.vio theories/Flt/FltModel.vio
 theories/Flt/FltArchive.vos theories/Flt/FltArchive.vok theories/Flt/FltArchive.required_vos: theories/Flt/FltArchive.v theories/Gen/Consts.vos theories/Msg/MsgDefs.vos theories/Msg/MsgModel.vos theories/Msg/MsgApi.vos theories/Flt/FltModel.vos
+theories/Flt/FltLemmas.vo theories/Flt/FltLemmas.glob theories/Flt/FltLemmas.v.beautified theories/Flt/FltLemmas.required_vo: theories/Flt/FltLemmas.v theories/Gen/Consts.vo theories/Msg/MsgDefs.vo theories/Msg/MsgModel.vo theories/Msg/MsgApi.vo theories/Msg/MsgBytesProofs.vo theories/Flt/FltModel.vo theories/Flt/FltArchive.vo
+theories/Flt/FltLemmas.vio: theories/Flt/FltLemmas.v theories/Gen/Consts.vio theories/Msg/MsgDefs.vio theories/Msg/MsgModel.vio theories/Msg/MsgApi.vio theories/Msg/MsgBytesProofs.vio theories/Flt/FltModel.vio theories/Flt/FltArchive.vio
+theories/Flt/FltLemmas.vos theories/Flt/FltLemmas.vok theories/Flt/FltLemmas.required_vos: theories/Flt/FltLemmas.v theories/Gen/Consts.vos theories/Msg/MsgDefs.vos theories/Msg/MsgModel.vos theories/Msg/MsgApi.vos theories/Msg/MsgBytesProofs.vos theories/Flt/FltModel.vos theories/Flt/FltArchive.vos
 theories/Flt/FltModel.vo theories/Flt/FltModel.glob theories/Flt/FltModel.v.beautified theories/Flt/FltModel.required_vo: theories/Flt/FltModel.v theories/Gen/Consts.vo theories/Msg/MsgDefs.vo theories/Msg/MsgModel.vo
 theories/Flt/FltModel.vio: theories/Flt/FltModel.v theories/Gen/Consts.vio theories/Msg/MsgDefs.vio theories/Msg/MsgModel.vio
 theories/Flt/FltModel.vos theories/Flt/FltModel.vok theories/Flt/FltModel.required_vos: theories/Flt/FltModel.v theories/Gen/Consts.vos theories/Msg/MsgDefs.vos theories/Msg/MsgModel.vos
@@ -121,9 +154,9 @@ theories/Gen/Consts.vos theories/Gen/Consts.vok theories/Gen/Consts.required_vos
 theories/Gw/FrameModel.vo theories/Gw/FrameModel.glob theories/Gw/FrameModel.v.beautified theories/Gw/FrameModel.required_vo: theories/Gw/FrameModel.v theories/Gen/Consts.vo theories/Gw/GwBase.vo
 theories/Gw/FrameModel.vio: theories/Gw/FrameModel.v theories/Gen/Consts.vio theories/Gw/GwBase.vio
 theories/Gw/FrameModel.vos theories/Gw/FrameModel.vok theories/Gw/FrameModel.required_vos: theories/Gw/FrameModel.v theories/Gen/Consts.vos theories/Gw/GwBase.vos
-theories/Gw/FrameProofs.vo theories/Gw/FrameProofs.glob theories/Gw/FrameProofs.v.beautified theories/Gw/FrameProofs.required_vo: theories/Gw/FrameProofs.v theories/Gen/Consts.vo theories/Gw/GwBase.vo theories/Gw/FrameModel.vo
-theories/Gw/FrameProofs.vio: theories/Gw/FrameProofs.v theories/Gen/Consts.vio theories/Gw/GwBase.vio theories/Gw/FrameModel.vio
-theories/Gw/FrameProofs.vos theories/Gw/FrameProofs.vok theories/Gw/FrameProofs.required_vos: theories/Gw/FrameProofs.v theories/Gen/Consts.vos theories/Gw/GwBase.vos theories/Gw/FrameModel.vos
+theories/Gw/FrameProofs.vo theories/Gw/FrameProofs.glob theories/Gw/FrameProofs.v.beautified theories/Gw/FrameProofs.required_vo: theories/Gw/FrameProofs.v theories/Gen/Consts.vo theories/Gw/GwBase.vo theories/Gw/GwLemmas.vo theories/Gw/FrameModel.vo theories/Gw/TransportProofs.vo
+theories/Gw/FrameProofs.vio: theories/Gw/FrameProofs.v theories/Gen/Consts.vio theories/Gw/GwBase.vio theories/Gw/GwLemmas.vio theories/Gw/FrameModel.vio theories/Gw/TransportProofs.vio
+theories/Gw/FrameProofs.vos theories/Gw/FrameProofs.vok theories/Gw/FrameProofs.required_vos: theories/Gw/FrameProofs.v theories/Gen/Consts.vos theories/Gw/GwBase.vos theories/Gw/GwLemmas.vos theories/Gw/FrameModel.vos theories/Gw/TransportProofs.vos
 theories/Gw/GwBase.vo theories/Gw/GwBase.glob theories/Gw/GwBase.v.beautified theories/Gw/GwBase.required_vo: theories/Gw/GwBase.v 
 theories/Gw/GwBase.vio: theories/Gw/GwBase.v 
 theories/Gw/GwBase.vos theories/Gw/GwBase.vok theories/Gw/GwBase.required_vos: theories/Gw/GwBase.v 
@@ -133,6 +166,9 @@ theories/Gw/GwLemmas.vos theories/Gw/GwLemmas.vok theories/Gw/GwLemmas.required_
 theories/Gw/MiniTunnel.vo theories/Gw/MiniTunnel.glob theories/Gw/MiniTunnel.v.beautified theories/Gw/MiniTunnel.required_vo: theories/Gw/MiniTunnel.v theories/Common/LE.vo theories/Gen/Consts.vo theories/Gw/Tunnel.vo
 theories/Gw/MiniTunnel.vio: theories/Gw/MiniTunnel.v theories/Common/LE.vio theories/Gen/Consts.vio theories/Gw/Tunnel.vio
 theories/Gw/MiniTunnel.vos theories/Gw/MiniTunnel.vok theories/Gw/MiniTunnel.required_vos: theories/Gw/MiniTunnel.v theories/Common/LE.vos theories/Gen/Consts.vos theories/Gw/Tunnel.vos
+theories/Gw/MiniTunnelDrain.vo theories/Gw/MiniTunnelDrain.glob theories/Gw/MiniTunnelDrain.v.beautified theories/Gw/MiniTunnelDrain.required_vo: theories/Gw/MiniTunnelDrain.v theories/Common/LE.vo theories/Gen/Consts.vo theories/Gw/Tunnel.vo theories/Gw/TunnelProofs.vo theories/Gw/MiniTunnel.vo theories/Gw/MiniTunnelProofs.vo
+theories/Gw/MiniTunnelDrain.vio: theories/Gw/MiniTunnelDrain.v theories/Common/LE.vio theories/Gen/Consts.vio theories/Gw/Tunnel.vio theories/Gw/TunnelProofs.vio theories/Gw/MiniTunnel.vio theories/Gw/MiniTunnelProofs.vio
+theories/Gw/MiniTunnelDrain.vos theories/Gw/MiniTunnelDrain.vok theories/Gw/MiniTunnelDrain.required_vos: theories/Gw/MiniTunnelDrain.v theories/Common/LE.vos theories/Gen/Consts.vos theories/Gw/Tunnel.vos theories/Gw/TunnelProofs.vos theories/Gw/MiniTunnel.vos theories/Gw/MiniTunnelProofs.vos
 theories/Gw/MiniTunnelProofs.vo theories/Gw/MiniTunnelProofs.glob theories/Gw/MiniTunnelProofs.v.beautified theories/Gw/MiniTunnelProofs.required_vo: theories/Gw/MiniTunnelProofs.v theories/Common/LE.vo theories/Gen/Consts.vo theories/Gw/Tunnel.vo theories/Gw/TunnelProofs.vo theories/Gw/MiniTunnel.vo
 theories/Gw/MiniTunnelProofs.vio: theories/Gw/MiniTunnelProofs.v theories/Common/LE.vio theories/Gen/Consts.vio theories/Gw/Tunnel.vio theories/Gw/TunnelProofs.vio theories/Gw/MiniTunnel.vio
 theories/Gw/MiniTunnelProofs.vos theories/Gw/MiniTunnelProofs.vok theories/Gw/MiniTunnelProofs.required_vos: theories/Gw/MiniTunnelProofs.v theories/Common/LE.vos theories/Gen/Consts.vos theories/Gw/Tunnel.vos theories/Gw/TunnelProofs.vos theories/Gw/MiniTunnel.vos
@@ -166,6 +202,9 @@ theories/Gw/TunnelComplete.vos theories/Gw/TunnelComplete.vok theories/Gw/Tunnel
 theories/Gw/TunnelDrain.vo theories/Gw/TunnelDrain.glob theories/Gw/TunnelDrain.v.beautified theories/Gw/TunnelDrain.required_vo: theories/Gw/TunnelDrain.v theories/Common/LE.vo theories/Gen/Consts.vo theories/Gw/Tunnel.vo theories/Gw/TunnelProofs.vo theories/Gw/TunnelSound.vo theories/Gw/TunnelSender.vo
 theories/Gw/TunnelDrain.vio: theories/Gw/TunnelDrain.v theories/Common/LE.vio theories/Gen/Consts.vio theories/Gw/Tunnel.vio theories/Gw/TunnelProofs.vio theories/Gw/TunnelSound.vio theories/Gw/TunnelSender.vio
 theories/Gw/TunnelDrain.vos theories/Gw/TunnelDrain.vok theories/Gw/TunnelDrain.required_vos: theories/Gw/TunnelDrain.v theories/Common/LE.vos theories/Gen/Consts.vos theories/Gw/Tunnel.vos theories/Gw/TunnelProofs.vos theories/Gw/TunnelSound.vos theories/Gw/TunnelSender.vos
+theories/Gw/TunnelMulti.vo theories/Gw/TunnelMulti.glob theories/Gw/TunnelMulti.v.beautified theories/Gw/TunnelMulti.required_vo: theories/Gw/TunnelMulti.v theories/Common/LE.vo theories/Gen/Consts.vo theories/Gw/Tunnel.vo theories/Gw/TunnelProofs.vo theories/Gw/TunnelSound.vo theories/Gw/TunnelSender.vo theories/Gw/TunnelComplete.vo theories/Gw/TunnelTheorems.vo
+theories/Gw/TunnelMulti.vio: theories/Gw/TunnelMulti.v theories/Common/LE.vio theories/Gen/Consts.vio theories/Gw/Tunnel.vio theories/Gw/TunnelProofs.vio theories/Gw/TunnelSound.vio theories/Gw/TunnelSender.vio theories/Gw/TunnelComplete.vio theories/Gw/TunnelTheorems.vio
+theories/Gw/TunnelMulti.vos theories/Gw/TunnelMulti.vok theories/Gw/TunnelMulti.required_vos: theories/Gw/TunnelMulti.v theories/Common/LE.vos theories/Gen/Consts.vos theories/Gw/Tunnel.vos theories/Gw/TunnelProofs.vos theories/Gw/TunnelSound.vos theories/Gw/TunnelSender.vos theories/Gw/TunnelComplete.vos theories/Gw/TunnelTheorems.vos
 theories/Gw/TunnelProofs.vo theories/Gw/TunnelProofs.glob theories/Gw/TunnelProofs.v.beautified theories/Gw/TunnelProofs.required_vo: theories/Gw/TunnelProofs.v theories/Common/LE.vo theories/Gen/Consts.vo theories/Gw/Tunnel.vo
 theories/Gw/TunnelProofs.vio: theories/Gw/TunnelProofs.v theories/Common/LE.vio theories/Gen/Consts.vio theories/Gw/Tunnel.vio
 theories/Gw/TunnelProofs.vos theories/Gw/TunnelProofs.vok theories/Gw/TunnelProofs.required_vos: theories/Gw/TunnelProofs.v theories/Common/LE.vos theories/Gen/Consts.vos theories/Gw/Tunnel.vos
@@ -199,9 +238,6 @@ theories/Msg/MsgExamples.vos theories/Msg/MsgExamples.vok theories/Msg/MsgExampl
 theories/Msg/MsgModel.vo theories/Msg/MsgModel.glob theories/Msg/MsgModel.v.beautified theories/Msg/MsgModel.required_vo: theories/Msg/MsgModel.v theories/Gen/Consts.vo theories/Msg/MsgDefs.vo
 theories/Msg/MsgModel.vio: theories/Msg/MsgModel.v theories/Gen/Consts.vio theories/Msg/MsgDefs.vio
 theories/Msg/MsgModel.vos theories/Msg/MsgModel.vok theories/Msg/MsgModel.required_vos: theories/Msg/MsgModel.v theories/Gen/Consts.vos theories/Msg/MsgDefs.vos
-theories/Msg/MsgProofs.vo theories/Msg/MsgProofs.glob theories/Msg/MsgProofs.v.beautified theories/Msg/MsgProofs.required_vo: theories/Msg/MsgProofs.v theories/Gen/Consts.vo theories/Msg/MsgDefs.vo theories/Msg/MsgModel.vo theories/Msg/MsgApi.vo
-theories/Msg/MsgProofs.vio: theories/Msg/MsgProofs.v theories/Gen/Consts.vio theories/Msg/MsgDefs.vio theories/Msg/MsgModel.vio theories/Msg/MsgApi.vio
-theories/Msg/MsgProofs.vos theories/Msg/MsgProofs.vok theories/Msg/MsgProofs.required_vos: theories/Msg/MsgProofs.v theories/Gen/Consts.vos theories/Msg/MsgDefs.vos theories/Msg/MsgModel.vos theories/Msg/MsgApi.vos
 theories/Msg/MsgReprProofs.vo theories/Msg/MsgReprProofs.glob theories/Msg/MsgReprProofs.v.beautified theories/Msg/MsgReprProofs.required_vo: theories/Msg/MsgReprProofs.v theories/Gen/Consts.vo theories/Msg/MsgDefs.vo theories/Msg/MsgModel.vo theories/Msg/MsgBytesProofs.vo theories/Msg/MsgSizeProofs.vo theories/Msg/MsgRoundTrip.vo
 theories/Msg/MsgReprProofs.vio: theories/Msg/MsgReprProofs.v theories/Gen/Consts.vio theories/Msg/MsgDefs.vio theories/Msg/MsgModel.vio theories/Msg/MsgBytesProofs.vio theories/Msg/MsgSizeProofs.vio theories/Msg/MsgRoundTrip.vio
 theories/Msg/MsgReprProofs.vos theories/Msg/MsgReprProofs.vok theories/Msg/MsgReprProofs.required_vos: theories/Msg/MsgReprProofs.v theories/Gen/Consts.vos theories/Msg/MsgDefs.vos theories/Msg/MsgModel.vos theories/Msg/MsgBytesProofs.vos theories/Msg/MsgSizeProofs.vos theories/Msg/MsgRoundTrip.vos
@@ -211,18 +247,30 @@ theories/Msg/MsgRoundTrip.vos theories/Msg/MsgRoundTrip.vok theories/Msg/MsgRoun
 theories/Msg/MsgSizeProofs.vo theories/Msg/MsgSizeProofs.glob theories/Msg/MsgSizeProofs.v.beautified theories/Msg/MsgSizeProofs.required_vo: theories/Msg/MsgSizeProofs.v theories/Gen/Consts.vo theories/Msg/MsgDefs.vo theories/Msg/MsgModel.vo theories/Msg/MsgBytesProofs.vo
 theories/Msg/MsgSizeProofs.vio: theories/Msg/MsgSizeProofs.v theories/Gen/Consts.vio theories/Msg/MsgDefs.vio theories/Msg/MsgModel.vio theories/Msg/MsgBytesProofs.vio
 theories/Msg/MsgSizeProofs.vos theories/Msg/MsgSizeProofs.vok theories/Msg/MsgSizeProofs.required_vos: theories/Msg/MsgSizeProofs.v theories/Gen/Consts.vos theories/Msg/MsgDefs.vos theories/Msg/MsgModel.vos theories/Msg/MsgBytesProofs.vos
+theories/Msg/MsgSpec.vo theories/Msg/MsgSpec.glob theories/Msg/MsgSpec.v.beautified theories/Msg/MsgSpec.required_vo: theories/Msg/MsgSpec.v theories/Msg/MsgDefs.vo
+theories/Msg/MsgSpec.vio: theories/Msg/MsgSpec.v theories/Msg/MsgDefs.vio
+theories/Msg/MsgSpec.vos theories/Msg/MsgSpec.vok theories/Msg/MsgSpec.required_vos: theories/Msg/MsgSpec.v theories/Msg/MsgDefs.vos
+theories/Pat/DenoteProofs.vo theories/Pat/DenoteProofs.glob theories/Pat/DenoteProofs.v.beautified theories/Pat/DenoteProofs.required_vo: theories/Pat/DenoteProofs.v theories/Gen/Consts.vo theories/Pat/Ere.vo theories/Pat/EreProofs.vo theories/Pat/Translate.vo theories/Pat/Simple.vo theories/Pat/TranslateProofs.vo
+theories/Pat/DenoteProofs.vio: theories/Pat/DenoteProofs.v theories/Gen/Consts.vio theories/Pat/Ere.vio theories/Pat/EreProofs.vio theories/Pat/Translate.vio theories/Pat/Simple.vio theories/Pat/TranslateProofs.vio
+theories/Pat/DenoteProofs.vos theories/Pat/DenoteProofs.vok theories/Pat/DenoteProofs.required_vos: theories/Pat/DenoteProofs.v theories/Gen/Consts.vos theories/Pat/Ere.vos theories/Pat/EreProofs.vos theories/Pat/Translate.vos theories/Pat/Simple.vos theories/Pat/TranslateProofs.vos
 theories/Pat/Ere.vo theories/Pat/Ere.glob theories/Pat/Ere.v.beautified theories/Pat/Ere.required_vo: theories/Pat/Ere.v 
 theories/Pat/Ere.vio: theories/Pat/Ere.v 
 theories/Pat/Ere.vos theories/Pat/Ere.vok theories/Pat/Ere.required_vos: theories/Pat/Ere.v 
 theories/Pat/EreProofs.vo theories/Pat/EreProofs.glob theories/Pat/EreProofs.v.beautified theories/Pat/EreProofs.required_vo: theories/Pat/EreProofs.v theories/Pat/Ere.vo
 theories/Pat/EreProofs.vio: theories/Pat/EreProofs.v theories/Pat/Ere.vio
 theories/Pat/EreProofs.vos theories/Pat/EreProofs.vok theories/Pat/EreProofs.required_vos: theories/Pat/EreProofs.v theories/Pat/Ere.vos
-theories/Pat/PatProofs.vo theories/Pat/PatProofs.glob theories/Pat/PatProofs.v.beautified theories/Pat/PatProofs.required_vo: theories/Pat/PatProofs.v theories/Gen/Consts.vo theories/Pat/Ere.vo theories/Pat/Translate.vo
-theories/Pat/PatProofs.vio: theories/Pat/PatProofs.v theories/Gen/Consts.vio theories/Pat/Ere.vio theories/Pat/Translate.vio
-theories/Pat/PatProofs.vos theories/Pat/PatProofs.vok theories/Pat/PatProofs.required_vos: theories/Pat/PatProofs.v theories/Gen/Consts.vos theories/Pat/Ere.vos theories/Pat/Translate.vos
+theories/Pat/PatProofs.vo theories/Pat/PatProofs.glob theories/Pat/PatProofs.v.beautified theories/Pat/PatProofs.required_vo: theories/Pat/PatProofs.v theories/Gen/Consts.vo theories/Pat/Ere.vo theories/Pat/EreProofs.vo theories/Pat/Translate.vo theories/Pat/Simple.vo theories/Pat/TranslateProofs.vo theories/Pat/DenoteProofs.vo
+theories/Pat/PatProofs.vio: theories/Pat/PatProofs.v theories/Gen/Consts.vio theories/Pat/Ere.vio theories/Pat/EreProofs.vio theories/Pat/Translate.vio theories/Pat/Simple.vio theories/Pat/TranslateProofs.vio theories/Pat/DenoteProofs.vio
+theories/Pat/PatProofs.vos theories/Pat/PatProofs.vok theories/Pat/PatProofs.required_vos: theories/Pat/PatProofs.v theories/Gen/Consts.vos theories/Pat/Ere.vos theories/Pat/EreProofs.vos theories/Pat/Translate.vos theories/Pat/Simple.vos theories/Pat/TranslateProofs.vos theories/Pat/DenoteProofs.vos
+theories/Pat/Simple.vo theories/Pat/Simple.glob theories/Pat/Simple.v.beautified theories/Pat/Simple.required_vo: theories/Pat/Simple.v theories/Pat/Ere.vo
+theories/Pat/Simple.vio: theories/Pat/Simple.v theories/Pat/Ere.vio
+theories/Pat/Simple.vos theories/Pat/Simple.vok theories/Pat/Simple.required_vos: theories/Pat/Simple.v theories/Pat/Ere.vos
 theories/Pat/Translate.vo theories/Pat/Translate.glob theories/Pat/Translate.v.beautified theories/Pat/Translate.required_vo: theories/Pat/Translate.v theories/Gen/Consts.vo theories/Pat/Ere.vo
 theories/Pat/Translate.vio: theories/Pat/Translate.v theories/Gen/Consts.vio theories/Pat/Ere.vio
 theories/Pat/Translate.vos theories/Pat/Translate.vok theories/Pat/Translate.required_vos: theories/Pat/Translate.v theories/Gen/Consts.vos theories/Pat/Ere.vos
+theories/Pat/TranslateProofs.vo theories/Pat/TranslateProofs.glob theories/Pat/TranslateProofs.v.beautified theories/Pat/TranslateProofs.required_vo: theories/Pat/TranslateProofs.v theories/Gen/Consts.vo theories/Pat/Ere.vo theories/Pat/EreProofs.vo theories/Pat/Translate.vo theories/Pat/Simple.vo
+theories/Pat/TranslateProofs.vio: theories/Pat/TranslateProofs.v theories/Gen/Consts.vio theories/Pat/Ere.vio theories/Pat/EreProofs.vio theories/Pat/Translate.vio theories/Pat/Simple.vio
+theories/Pat/TranslateProofs.vos theories/Pat/TranslateProofs.vok theories/Pat/TranslateProofs.required_vos: theories/Pat/TranslateProofs.v theories/Gen/Consts.vos theories/Pat/Ere.vos theories/Pat/EreProofs.vos theories/Pat/Translate.vos theories/Pat/Simple.vos
 theories/Properties_C01.vo theories/Properties_C01.glob theories/Properties_C01.v.beautified theories/Properties_C01.required_vo: theories/Properties_C01.v theories/Msg/MsgDefs.vo theories/Msg/MsgModel.vo theories/Msg/MsgApi.vo theories/Msg/MsgBytesProofs.vo theories/Msg/MsgSizeProofs.vo theories/Msg/MsgRoundTrip.vo theories/Msg/MsgReprProofs.vo theories/Msg/MsgApiProofs.vo theories/Msg/MsgEqProofs.vo theories/Msg/MsgExamples.vo
 theories/Properties_C01.vio: theories/Properties_C01.v theories/Msg/MsgDefs.vio theories/Msg/MsgModel.vio theories/Msg/MsgApi.vio theories/Msg/MsgBytesProofs.vio theories/Msg/MsgSizeProofs.vio theories/Msg/MsgRoundTrip.vio theories/Msg/MsgReprProofs.vio theories/Msg/MsgApiProofs.vio theories/Msg/MsgEqProofs.vio theories/Msg/MsgExamples.vio
 theories/Properties_C01.vos theories/Properties_C01.vok theories/Properties_C01.required_vos: theories/Properties_C01.v theories/Msg/MsgDefs.vos theories/Msg/MsgModel.vos theories/Msg/MsgApi.vos theories/Msg/MsgBytesProofs.vos theories/Msg/MsgSizeProofs.vos theories/Msg/MsgRoundTrip.vos theories/Msg/MsgReprProofs.vos theories/Msg/MsgApiProofs.vos theories/Msg/MsgEqProofs.vos theories/Msg/MsgExamples.vos
@@ -232,6 +280,12 @@ theories/Properties_C03.vos theories/Properties_C03.vok theories/Properties_C03.
 theories/Properties_C04.vo theories/Properties_C04.glob theories/Properties_C04.v.beautified theories/Properties_C04.required_vo: theories/Properties_C04.v theories/Refl/Base.vo theories/Refl/Tree.vo theories/Refl/TreeProofs.vo
 theories/Properties_C04.vio: theories/Properties_C04.v theories/Refl/Base.vio theories/Refl/Tree.vio theories/Refl/TreeProofs.vio
 theories/Properties_C04.vos theories/Properties_C04.vok theories/Properties_C04.required_vos: theories/Properties_C04.v theories/Refl/Base.vos theories/Refl/Tree.vos theories/Refl/TreeProofs.vos
+theories/Properties_C05.vo theories/Properties_C05.glob theories/Properties_C05.v.beautified theories/Properties_C05.required_vo: theories/Properties_C05.v theories/Gen/Consts.vo theories/Refl/Base.vo theories/Refl/Tree.vo theories/Refl/Matcher.vo theories/Refl/Traverse.vo theories/Refl/Session.vo theories/Refl/Server.vo theories/Refl/Route.vo
+theories/Properties_C05.vio: theories/Properties_C05.v theories/Gen/Consts.vio theories/Refl/Base.vio theories/Refl/Tree.vio theories/Refl/Matcher.vio theories/Refl/Traverse.vio theories/Refl/Session.vio theories/Refl/Server.vio theories/Refl/Route.vio
+theories/Properties_C05.vos theories/Properties_C05.vok theories/Properties_C05.required_vos: theories/Properties_C05.v theories/Gen/Consts.vos theories/Refl/Base.vos theories/Refl/Tree.vos theories/Refl/Matcher.vos theories/Refl/Traverse.vos theories/Refl/Session.vos theories/Refl/Server.vos theories/Refl/Route.vos
+theories/Properties_C06.vo theories/Properties_C06.glob theories/Properties_C06.v.beautified theories/Properties_C06.required_vo: theories/Properties_C06.v theories/Refl/Base.vo theories/Refl/Server.vo theories/Refl/IsoModel.vo theories/Refl/IsoProofs.vo
+theories/Properties_C06.vio: theories/Properties_C06.v theories/Refl/Base.vio theories/Refl/Server.vio theories/Refl/IsoModel.vio theories/Refl/IsoProofs.vio
+theories/Properties_C06.vos theories/Properties_C06.vok theories/Properties_C06.required_vos: theories/Properties_C06.v theories/Refl/Base.vos theories/Refl/Server.vos theories/Refl/IsoModel.vos theories/Refl/IsoProofs.vos
 theories/Properties_C07.vo theories/Properties_C07.glob theories/Properties_C07.v.beautified theories/Properties_C07.required_vo: theories/Properties_C07.v theories/Refl/Base.vo theories/Refl/Bounded.vo theories/Refl/BoundedProofs.vo
 theories/Properties_C07.vio: theories/Properties_C07.v theories/Refl/Base.vio theories/Refl/Bounded.vio theories/Refl/BoundedProofs.vio
 theories/Properties_C07.vos theories/Properties_C07.vok theories/Properties_C07.required_vos: theories/Properties_C07.v theories/Refl/Base.vos theories/Refl/Bounded.vos theories/Refl/BoundedProofs.vos
@@ -244,12 +298,12 @@ theories/Properties_C10.vos theories/Properties_C10.vok theories/Properties_C10.
 theories/Properties_C11.vo theories/Properties_C11.glob theories/Properties_C11.v.beautified theories/Properties_C11.required_vo: theories/Properties_C11.v theories/Gen/Consts.vo theories/Conc/ThreadQ.vo theories/Conc/ThreadQProofs.vo
 theories/Properties_C11.vio: theories/Properties_C11.v theories/Gen/Consts.vio theories/Conc/ThreadQ.vio theories/Conc/ThreadQProofs.vio
 theories/Properties_C11.vos theories/Properties_C11.vok theories/Properties_C11.required_vos: theories/Properties_C11.v theories/Gen/Consts.vos theories/Conc/ThreadQ.vos theories/Conc/ThreadQProofs.vos
-theories/Properties_C12.vo theories/Properties_C12.glob theories/Properties_C12.v.beautified theories/Properties_C12.required_vo: theories/Properties_C12.v theories/Common/LE.vo theories/Gw/Tunnel.vo theories/Gw/TunnelProofs.vo theories/Gw/TunnelSound.vo theories/Gw/TunnelSender.vo theories/Gw/TunnelComplete.vo theories/Gw/TunnelTheorems.vo theories/Gw/MiniTunnel.vo theories/Gw/MiniTunnelProofs.vo
-theories/Properties_C12.vio: theories/Properties_C12.v theories/Common/LE.vio theories/Gw/Tunnel.vio theories/Gw/TunnelProofs.vio theories/Gw/TunnelSound.vio theories/Gw/TunnelSender.vio theories/Gw/TunnelComplete.vio theories/Gw/TunnelTheorems.vio theories/Gw/MiniTunnel.vio theories/Gw/MiniTunnelProofs.vio
-theories/Properties_C12.vos theories/Properties_C12.vok theories/Properties_C12.required_vos: theories/Properties_C12.v theories/Common/LE.vos theories/Gw/Tunnel.vos theories/Gw/TunnelProofs.vos theories/Gw/TunnelSound.vos theories/Gw/TunnelSender.vos theories/Gw/TunnelComplete.vos theories/Gw/TunnelTheorems.vos theories/Gw/MiniTunnel.vos theories/Gw/MiniTunnelProofs.vos
-theories/Properties_C13.vo theories/Properties_C13.glob theories/Properties_C13.v.beautified theories/Properties_C13.required_vo: theories/Properties_C13.v theories/Refl/Index.vo theories/Refl/IndexProofs.vo
-theories/Properties_C13.vio: theories/Properties_C13.v theories/Refl/Index.vio theories/Refl/IndexProofs.vio
-theories/Properties_C13.vos theories/Properties_C13.vok theories/Properties_C13.required_vos: theories/Properties_C13.v theories/Refl/Index.vos theories/Refl/IndexProofs.vos
+theories/Properties_C12.vo theories/Properties_C12.glob theories/Properties_C12.v.beautified theories/Properties_C12.required_vo: theories/Properties_C12.v theories/Common/LE.vo theories/Gw/Tunnel.vo theories/Gw/TunnelProofs.vo theories/Gw/TunnelSound.vo theories/Gw/TunnelSender.vo theories/Gw/TunnelComplete.vo theories/Gw/TunnelTheorems.vo theories/Gw/MiniTunnel.vo theories/Gw/MiniTunnelProofs.vo theories/Gw/MiniTunnelDrain.vo
+theories/Properties_C12.vio: theories/Properties_C12.v theories/Common/LE.vio theories/Gw/Tunnel.vio theories/Gw/TunnelProofs.vio theories/Gw/TunnelSound.vio theories/Gw/TunnelSender.vio theories/Gw/TunnelComplete.vio theories/Gw/TunnelTheorems.vio theories/Gw/MiniTunnel.vio theories/Gw/MiniTunnelProofs.vio theories/Gw/MiniTunnelDrain.vio
+theories/Properties_C12.vos theories/Properties_C12.vok theories/Properties_C12.required_vos: theories/Properties_C12.v theories/Common/LE.vos theories/Gw/Tunnel.vos theories/Gw/TunnelProofs.vos theories/Gw/TunnelSound.vos theories/Gw/TunnelSender.vos theories/Gw/TunnelComplete.vos theories/Gw/TunnelTheorems.vos theories/Gw/MiniTunnel.vos theories/Gw/MiniTunnelProofs.vos theories/Gw/MiniTunnelDrain.vos
+theories/Properties_C13.vo theories/Properties_C13.glob theories/Properties_C13.v.beautified theories/Properties_C13.required_vo: theories/Properties_C13.v theories/Gen/Consts.vo theories/Refl/Index.vo theories/Refl/IndexProofs.vo theories/Refl/IndexModel.vo theories/Refl/IndexModelProofs.vo theories/Refl/IndexWitness.vo
+theories/Properties_C13.vio: theories/Properties_C13.v theories/Gen/Consts.vio theories/Refl/Index.vio theories/Refl/IndexProofs.vio theories/Refl/IndexModel.vio theories/Refl/IndexModelProofs.vio theories/Refl/IndexWitness.vio
+theories/Properties_C13.vos theories/Properties_C13.vok theories/Properties_C13.required_vos: theories/Properties_C13.v theories/Gen/Consts.vos theories/Refl/Index.vos theories/Refl/IndexProofs.vos theories/Refl/IndexModel.vos theories/Refl/IndexModelProofs.vos theories/Refl/IndexWitness.vos
 theories/Properties_C14.vo theories/Properties_C14.glob theories/Properties_C14.v.beautified theories/Properties_C14.required_vo: theories/Properties_C14.v theories/Msg/MsgDefs.vo theories/Msg/MsgModel.vo theories/Flt/FltModel.vo theories/Flt/FltProofs.vo
 theories/Properties_C14.vio: theories/Properties_C14.v theories/Msg/MsgDefs.vio theories/Msg/MsgModel.vio theories/Flt/FltModel.vio theories/Flt/FltProofs.vio
 theories/Properties_C14.vos theories/Properties_C14.vok theories/Properties_C14.required_vos: theories/Properties_C14.v theories/Msg/MsgDefs.vos theories/Msg/MsgModel.vos theories/Flt/FltModel.vos theories/Flt/FltProofs.vos
@@ -262,9 +316,9 @@ theories/Properties_C16.vos theories/Properties_C16.vok theories/Properties_C16.
 theories/Properties_C17.vo theories/Properties_C17.glob theories/Properties_C17.v.beautified theories/Properties_C17.required_vo: theories/Properties_C17.v theories/Gen/Consts.vo theories/Cont/StrL0.vo theories/Cont/StrModel.vo theories/Cont/StrProofs.vo
 theories/Properties_C17.vio: theories/Properties_C17.v theories/Gen/Consts.vio theories/Cont/StrL0.vio theories/Cont/StrModel.vio theories/Cont/StrProofs.vio
 theories/Properties_C17.vos theories/Properties_C17.vok theories/Properties_C17.required_vos: theories/Properties_C17.v theories/Gen/Consts.vos theories/Cont/StrL0.vos theories/Cont/StrModel.vos theories/Cont/StrProofs.vos
-theories/Properties_C18.vo theories/Properties_C18.glob theories/Properties_C18.v.beautified theories/Properties_C18.required_vo: theories/Properties_C18.v theories/Conc/RwMutexModel.vo theories/Conc/RwMutexProofs.vo
-theories/Properties_C18.vio: theories/Properties_C18.v theories/Conc/RwMutexModel.vio theories/Conc/RwMutexProofs.vio
-theories/Properties_C18.vos theories/Properties_C18.vok theories/Properties_C18.required_vos: theories/Properties_C18.v theories/Conc/RwMutexModel.vos theories/Conc/RwMutexProofs.vos
+theories/Properties_C18.vo theories/Properties_C18.glob theories/Properties_C18.v.beautified theories/Properties_C18.required_vo: theories/Properties_C18.v theories/Conc/RwMutexModel.vo theories/Conc/RwMutexProofs.vo theories/Conc/RwMutexInv.vo theories/Conc/RwMutexThms.vo
+theories/Properties_C18.vio: theories/Properties_C18.v theories/Conc/RwMutexModel.vio theories/Conc/RwMutexProofs.vio theories/Conc/RwMutexInv.vio theories/Conc/RwMutexThms.vio
+theories/Properties_C18.vos theories/Properties_C18.vok theories/Properties_C18.required_vos: theories/Properties_C18.v theories/Conc/RwMutexModel.vos theories/Conc/RwMutexProofs.vos theories/Conc/RwMutexInv.vos theories/Conc/RwMutexThms.vos
 theories/Properties_C19.vo theories/Properties_C19.glob theories/Properties_C19.v.beautified theories/Properties_C19.required_vo: theories/Properties_C19.v theories/Conc/TPool.vo theories/Conc/TPoolLemmas.vo
 theories/Properties_C19.vio: theories/Properties_C19.v theories/Conc/TPool.vio theories/Conc/TPoolLemmas.vio
 theories/Properties_C19.vos theories/Properties_C19.vok theories/Properties_C19.required_vos: theories/Properties_C19.v theories/Conc/TPool.vos theories/Conc/TPoolLemmas.vos
@@ -280,15 +334,24 @@ theories/Pulse/PulseInv.vos theories/Pulse/PulseInv.vok theories/Pulse/PulseInv.
 theories/Pulse/PulseModel.vo theories/Pulse/PulseModel.glob theories/Pulse/PulseModel.v.beautified theories/Pulse/PulseModel.required_vo: theories/Pulse/PulseModel.v theories/Gen/Consts.vo
 theories/Pulse/PulseModel.vio: theories/Pulse/PulseModel.v theories/Gen/Consts.vio
 theories/Pulse/PulseModel.vos theories/Pulse/PulseModel.vok theories/Pulse/PulseModel.required_vos: theories/Pulse/PulseModel.v theories/Gen/Consts.vos
+theories/Pulse/PulseOps.vo theories/Pulse/PulseOps.glob theories/Pulse/PulseOps.v.beautified theories/Pulse/PulseOps.required_vo: theories/Pulse/PulseOps.v theories/Pulse/PulseModel.vo theories/Pulse/PulseInv.vo theories/Pulse/PulseForest.vo theories/Pulse/PulseResched.vo
+theories/Pulse/PulseOps.vio: theories/Pulse/PulseOps.v theories/Pulse/PulseModel.vio theories/Pulse/PulseInv.vio theories/Pulse/PulseForest.vio theories/Pulse/PulseResched.vio
+theories/Pulse/PulseOps.vos theories/Pulse/PulseOps.vok theories/Pulse/PulseOps.required_vos: theories/Pulse/PulseOps.v theories/Pulse/PulseModel.vos theories/Pulse/PulseInv.vos theories/Pulse/PulseForest.vos theories/Pulse/PulseResched.vos
 theories/Pulse/PulseProofs.vo theories/Pulse/PulseProofs.glob theories/Pulse/PulseProofs.v.beautified theories/Pulse/PulseProofs.required_vo: theories/Pulse/PulseProofs.v theories/Pulse/PulseModel.vo
 theories/Pulse/PulseProofs.vio: theories/Pulse/PulseProofs.v theories/Pulse/PulseModel.vio
 theories/Pulse/PulseProofs.vos theories/Pulse/PulseProofs.vok theories/Pulse/PulseProofs.required_vos: theories/Pulse/PulseProofs.v theories/Pulse/PulseModel.vos
-theories/Pulse/PulseResched.vo theories/Pulse/PulseResched.glob theories/Pulse/PulseResched.v.beautified theories/Pulse/PulseResched.required_vo: theories/Pulse/PulseResched.v theories/Pulse/PulseModel.vo theories/Pulse/PulseInv.vo
-theories/Pulse/PulseResched.vio: theories/Pulse/PulseResched.v theories/Pulse/PulseModel.vio theories/Pulse/PulseInv.vio
-theories/Pulse/PulseResched.vos theories/Pulse/PulseResched.vok theories/Pulse/PulseResched.required_vos: theories/Pulse/PulseResched.v theories/Pulse/PulseModel.vos theories/Pulse/PulseInv.vos
+theories/Pulse/PulseResched.vo theories/Pulse/PulseResched.glob theories/Pulse/PulseResched.v.beautified theories/Pulse/PulseResched.required_vo: theories/Pulse/PulseResched.v theories/Pulse/PulseModel.vo theories/Pulse/PulseInv.vo theories/Pulse/PulseForest.vo
+theories/Pulse/PulseResched.vio: theories/Pulse/PulseResched.v theories/Pulse/PulseModel.vio theories/Pulse/PulseInv.vio theories/Pulse/PulseForest.vio
+theories/Pulse/PulseResched.vos theories/Pulse/PulseResched.vok theories/Pulse/PulseResched.required_vos: theories/Pulse/PulseResched.v theories/Pulse/PulseModel.vos theories/Pulse/PulseInv.vos theories/Pulse/PulseForest.vos
+theories/Pulse/PulseSweep.vo theories/Pulse/PulseSweep.glob theories/Pulse/PulseSweep.v.beautified theories/Pulse/PulseSweep.required_vo: theories/Pulse/PulseSweep.v theories/Pulse/PulseModel.vo theories/Pulse/PulseInv.vo theories/Pulse/PulseForest.vo theories/Pulse/PulseResched.vo theories/Pulse/PulseOps.vo
+theories/Pulse/PulseSweep.vio: theories/Pulse/PulseSweep.v theories/Pulse/PulseModel.vio theories/Pulse/PulseInv.vio theories/Pulse/PulseForest.vio theories/Pulse/PulseResched.vio theories/Pulse/PulseOps.vio
+theories/Pulse/PulseSweep.vos theories/Pulse/PulseSweep.vok theories/Pulse/PulseSweep.required_vos: theories/Pulse/PulseSweep.v theories/Pulse/PulseModel.vos theories/Pulse/PulseInv.vos theories/Pulse/PulseForest.vos theories/Pulse/PulseResched.vos theories/Pulse/PulseOps.vos
 theories/Refl/Base.vo theories/Refl/Base.glob theories/Refl/Base.v.beautified theories/Refl/Base.required_vo: theories/Refl/Base.v 
 theories/Refl/Base.vio: theories/Refl/Base.v 
 theories/Refl/Base.vos theories/Refl/Base.vok theories/Refl/Base.required_vos: theories/Refl/Base.v 
+theories/Refl/BaseProofs.vo theories/Refl/BaseProofs.glob theories/Refl/BaseProofs.v.beautified theories/Refl/BaseProofs.required_vo: theories/Refl/BaseProofs.v theories/Refl/Base.vo
+theories/Refl/BaseProofs.vio: theories/Refl/BaseProofs.v theories/Refl/Base.vio
+theories/Refl/BaseProofs.vos theories/Refl/BaseProofs.vok theories/Refl/BaseProofs.required_vos: theories/Refl/BaseProofs.v theories/Refl/Base.vos
 theories/Refl/Bounded.vo theories/Refl/Bounded.glob theories/Refl/Bounded.v.beautified theories/Refl/Bounded.required_vo: theories/Refl/Bounded.v theories/Gen/Consts.vo theories/Refl/Base.vo theories/Refl/Tree.vo theories/Refl/Matcher.vo theories/Refl/Traverse.vo theories/Refl/Session.vo theories/Refl/Server.vo
 theories/Refl/Bounded.vio: theories/Refl/Bounded.v theories/Gen/Consts.vio theories/Refl/Base.vio theories/Refl/Tree.vio theories/Refl/Matcher.vio theories/Refl/Traverse.vio theories/Refl/Session.vio theories/Refl/Server.vio
 theories/Refl/Bounded.vos theories/Refl/Bounded.vok theories/Refl/Bounded.required_vos: theories/Refl/Bounded.v theories/Gen/Consts.vos theories/Refl/Base.vos theories/Refl/Tree.vos theories/Refl/Matcher.vos theories/Refl/Traverse.vos theories/Refl/Session.vos theories/Refl/Server.vos
@@ -310,12 +373,30 @@ theories/Refl/IndexModelProofs.vos theories/Refl/IndexModelProofs.vok theories/R
 theories/Refl/IndexProofs.vo theories/Refl/IndexProofs.glob theories/Refl/IndexProofs.v.beautified theories/Refl/IndexProofs.required_vo: theories/Refl/IndexProofs.v theories/Refl/Index.vo
 theories/Refl/IndexProofs.vio: theories/Refl/IndexProofs.v theories/Refl/Index.vio
 theories/Refl/IndexProofs.vos theories/Refl/IndexProofs.vok theories/Refl/IndexProofs.required_vos: theories/Refl/IndexProofs.v theories/Refl/Index.vos
+theories/Refl/IndexWitness.vo theories/Refl/IndexWitness.glob theories/Refl/IndexWitness.v.beautified theories/Refl/IndexWitness.required_vo: theories/Refl/IndexWitness.v theories/Refl/Index.vo theories/Refl/IndexProofs.vo theories/Refl/IndexModel.vo theories/Refl/IndexModelProofs.vo theories/Gen/Consts.vo
+theories/Refl/IndexWitness.vio: theories/Refl/IndexWitness.v theories/Refl/Index.vio theories/Refl/IndexProofs.vio theories/Refl/IndexModel.vio theories/Refl/IndexModelProofs.vio theories/Gen/Consts.vio
+theories/Refl/IndexWitness.vos theories/Refl/IndexWitness.vok theories/Refl/IndexWitness.required_vos: theories/Refl/IndexWitness.v theories/Refl/Index.vos theories/Refl/IndexProofs.vos theories/Refl/IndexModel.vos theories/Refl/IndexModelProofs.vos theories/Gen/Consts.vos
+theories/Refl/IsoBase.vo theories/Refl/IsoBase.glob theories/Refl/IsoBase.v.beautified theories/Refl/IsoBase.required_vo: theories/Refl/IsoBase.v theories/Refl/Base.vo theories/Refl/Tree.vo
+theories/Refl/IsoBase.vio: theories/Refl/IsoBase.v theories/Refl/Base.vio theories/Refl/Tree.vio
+theories/Refl/IsoBase.vos theories/Refl/IsoBase.vok theories/Refl/IsoBase.required_vos: theories/Refl/IsoBase.v theories/Refl/Base.vos theories/Refl/Tree.vos
+theories/Refl/IsoFrame.vo theories/Refl/IsoFrame.glob theories/Refl/IsoFrame.v.beautified theories/Refl/IsoFrame.required_vo: theories/Refl/IsoFrame.v theories/Gen/Consts.vo theories/Refl/Base.vo theories/Refl/Tree.vo theories/Refl/Matcher.vo theories/Refl/Traverse.vo theories/Refl/Session.vo theories/Refl/Server.vo theories/Refl/IsoModel.vo theories/Refl/IsoBase.vo theories/Refl/IsoTrav.vo
+theories/Refl/IsoFrame.vio: theories/Refl/IsoFrame.v theories/Gen/Consts.vio theories/Refl/Base.vio theories/Refl/Tree.vio theories/Refl/Matcher.vio theories/Refl/Traverse.vio theories/Refl/Session.vio theories/Refl/Server.vio theories/Refl/IsoModel.vio theories/Refl/IsoBase.vio theories/Refl/IsoTrav.vio
+theories/Refl/IsoFrame.vos theories/Refl/IsoFrame.vok theories/Refl/IsoFrame.required_vos: theories/Refl/IsoFrame.v theories/Gen/Consts.vos theories/Refl/Base.vos theories/Refl/Tree.vos theories/Refl/Matcher.vos theories/Refl/Traverse.vos theories/Refl/Session.vos theories/Refl/Server.vos theories/Refl/IsoModel.vos theories/Refl/IsoBase.vos theories/Refl/IsoTrav.vos
 theories/Refl/IsoModel.vo theories/Refl/IsoModel.glob theories/Refl/IsoModel.v.beautified theories/Refl/IsoModel.required_vo: theories/Refl/IsoModel.v theories/Gen/Consts.vo theories/Refl/Base.vo theories/Refl/Tree.vo theories/Refl/Matcher.vo theories/Refl/Traverse.vo theories/Refl/Session.vo theories/Refl/Server.vo
 theories/Refl/IsoModel.vio: theories/Refl/IsoModel.v theories/Gen/Consts.vio theories/Refl/Base.vio theories/Refl/Tree.vio theories/Refl/Matcher.vio theories/Refl/Traverse.vio theories/Refl/Session.vio theories/Refl/Server.vio
 theories/Refl/IsoModel.vos theories/Refl/IsoModel.vok theories/Refl/IsoModel.required_vos: theories/Refl/IsoModel.v theories/Gen/Consts.vos theories/Refl/Base.vos theories/Refl/Tree.vos theories/Refl/Matcher.vos theories/Refl/Traverse.vos theories/Refl/Session.vos theories/Refl/Server.vos
+theories/Refl/IsoProofs.vo theories/Refl/IsoProofs.glob theories/Refl/IsoProofs.v.beautified theories/Refl/IsoProofs.required_vo: theories/Refl/IsoProofs.v theories/Gen/Consts.vo theories/Refl/Base.vo theories/Refl/Tree.vo theories/Refl/Matcher.vo theories/Refl/Traverse.vo theories/Refl/Session.vo theories/Refl/Server.vo theories/Refl/IsoModel.vo
+theories/Refl/IsoProofs.vio: theories/Refl/IsoProofs.v theories/Gen/Consts.vio theories/Refl/Base.vio theories/Refl/Tree.vio theories/Refl/Matcher.vio theories/Refl/Traverse.vio theories/Refl/Session.vio theories/Refl/Server.vio theories/Refl/IsoModel.vio
+theories/Refl/IsoProofs.vos theories/Refl/IsoProofs.vok theories/Refl/IsoProofs.required_vos: theories/Refl/IsoProofs.v theories/Gen/Consts.vos theories/Refl/Base.vos theories/Refl/Tree.vos theories/Refl/Matcher.vos theories/Refl/Traverse.vos theories/Refl/Session.vos theories/Refl/Server.vos theories/Refl/IsoModel.vos
+theories/Refl/IsoTrav.vo theories/Refl/IsoTrav.glob theories/Refl/IsoTrav.v.beautified theories/Refl/IsoTrav.required_vo: theories/Refl/IsoTrav.v theories/Refl/Base.vo theories/Refl/Tree.vo theories/Refl/Matcher.vo theories/Refl/Traverse.vo theories/Refl/IsoBase.vo
+theories/Refl/IsoTrav.vio: theories/Refl/IsoTrav.v theories/Refl/Base.vio theories/Refl/Tree.vio theories/Refl/Matcher.vio theories/Refl/Traverse.vio theories/Refl/IsoBase.vio
+theories/Refl/IsoTrav.vos theories/Refl/IsoTrav.vok theories/Refl/IsoTrav.required_vos: theories/Refl/IsoTrav.v theories/Refl/Base.vos theories/Refl/Tree.vos theories/Refl/Matcher.vos theories/Refl/Traverse.vos theories/Refl/IsoBase.vos
 theories/Refl/Matcher.vo theories/Refl/Matcher.glob theories/Refl/Matcher.v.beautified theories/Refl/Matcher.required_vo: theories/Refl/Matcher.v theories/Refl/Base.vo theories/Refl/Tree.vo
 theories/Refl/Matcher.vio: theories/Refl/Matcher.v theories/Refl/Base.vio theories/Refl/Tree.vio
 theories/Refl/Matcher.vos theories/Refl/Matcher.vok theories/Refl/Matcher.required_vos: theories/Refl/Matcher.v theories/Refl/Base.vos theories/Refl/Tree.vos
+theories/Refl/MatcherProofs.vo theories/Refl/MatcherProofs.glob theories/Refl/MatcherProofs.v.beautified theories/Refl/MatcherProofs.required_vo: theories/Refl/MatcherProofs.v theories/Refl/Base.vo theories/Refl/BaseProofs.vo theories/Refl/Tree.vo theories/Refl/Matcher.vo theories/Refl/Traverse.vo
+theories/Refl/MatcherProofs.vio: theories/Refl/MatcherProofs.v theories/Refl/Base.vio theories/Refl/BaseProofs.vio theories/Refl/Tree.vio theories/Refl/Matcher.vio theories/Refl/Traverse.vio
+theories/Refl/MatcherProofs.vos theories/Refl/MatcherProofs.vok theories/Refl/MatcherProofs.required_vos: theories/Refl/MatcherProofs.v theories/Refl/Base.vos theories/Refl/BaseProofs.vos theories/Refl/Tree.vos theories/Refl/Matcher.vos theories/Refl/Traverse.vos
 theories/Refl/Mirror.vo theories/Refl/Mirror.glob theories/Refl/Mirror.v.beautified theories/Refl/Mirror.required_vo: theories/Refl/Mirror.v theories/Refl/Base.vo theories/Refl/Tree.vo theories/Refl/Matcher.vo theories/Refl/Traverse.vo theories/Refl/Session.vo theories/Refl/Server.vo
 theories/Refl/Mirror.vio: theories/Refl/Mirror.v theories/Refl/Base.vio theories/Refl/Tree.vio theories/Refl/Matcher.vio theories/Refl/Traverse.vio theories/Refl/Session.vio theories/Refl/Server.vio
 theories/Refl/Mirror.vos theories/Refl/Mirror.vok theories/Refl/Mirror.required_vos: theories/Refl/Mirror.v theories/Refl/Base.vos theories/Refl/Tree.vos theories/Refl/Matcher.vos theories/Refl/Traverse.vos theories/Refl/Session.vos theories/Refl/Server.vos
@@ -331,9 +412,15 @@ theories/Refl/Session.vos theories/Refl/Session.vok theories/Refl/Session.requir
 theories/Refl/Traverse.vo theories/Refl/Traverse.glob theories/Refl/Traverse.v.beautified theories/Refl/Traverse.required_vo: theories/Refl/Traverse.v theories/Refl/Base.vo theories/Refl/Tree.vo theories/Refl/Matcher.vo
 theories/Refl/Traverse.vio: theories/Refl/Traverse.v theories/Refl/Base.vio theories/Refl/Tree.vio theories/Refl/Matcher.vio
 theories/Refl/Traverse.vos theories/Refl/Traverse.vok theories/Refl/Traverse.required_vos: theories/Refl/Traverse.v theories/Refl/Base.vos theories/Refl/Tree.vos theories/Refl/Matcher.vos
+theories/Refl/TraverseFold.vo theories/Refl/TraverseFold.glob theories/Refl/TraverseFold.v.beautified theories/Refl/TraverseFold.required_vo: theories/Refl/TraverseFold.v theories/Refl/Base.vo theories/Refl/BaseProofs.vo theories/Refl/Tree.vo theories/Refl/TreeProofs.vo theories/Refl/Matcher.vo theories/Refl/Traverse.vo
+theories/Refl/TraverseFold.vio: theories/Refl/TraverseFold.v theories/Refl/Base.vio theories/Refl/BaseProofs.vio theories/Refl/Tree.vio theories/Refl/TreeProofs.vio theories/Refl/Matcher.vio theories/Refl/Traverse.vio
+theories/Refl/TraverseFold.vos theories/Refl/TraverseFold.vok theories/Refl/TraverseFold.required_vos: theories/Refl/TraverseFold.v theories/Refl/Base.vos theories/Refl/BaseProofs.vos theories/Refl/Tree.vos theories/Refl/TreeProofs.vos theories/Refl/Matcher.vos theories/Refl/Traverse.vos
+theories/Refl/TraverseSpec.vo theories/Refl/TraverseSpec.glob theories/Refl/TraverseSpec.v.beautified theories/Refl/TraverseSpec.required_vo: theories/Refl/TraverseSpec.v theories/Refl/Base.vo theories/Refl/BaseProofs.vo theories/Refl/Tree.vo theories/Refl/TreeProofs.vo theories/Refl/Matcher.vo theories/Refl/MatcherProofs.vo theories/Refl/Traverse.vo theories/Refl/TraverseFold.vo
+theories/Refl/TraverseSpec.vio: theories/Refl/TraverseSpec.v theories/Refl/Base.vio theories/Refl/BaseProofs.vio theories/Refl/Tree.vio theories/Refl/TreeProofs.vio theories/Refl/Matcher.vio theories/Refl/MatcherProofs.vio theories/Refl/Traverse.vio theories/Refl/TraverseFold.vio
+theories/Refl/TraverseSpec.vos theories/Refl/TraverseSpec.vok theories/Refl/TraverseSpec.required_vos: theories/Refl/TraverseSpec.v theories/Refl/Base.vos theories/Refl/BaseProofs.vos theories/Refl/Tree.vos theories/Refl/TreeProofs.vos theories/Refl/Matcher.vos theories/Refl/MatcherProofs.vos theories/Refl/Traverse.vos theories/Refl/TraverseFold.vos
 theories/Refl/Tree.vo theories/Refl/Tree.glob theories/Refl/Tree.v.beautified theories/Refl/Tree.required_vo: theories/Refl/Tree.v theories/Refl/Base.vo
 theories/Refl/Tree.vio: theories/Refl/Tree.v theories/Refl/Base.vio
 theories/Refl/Tree.vos theories/Refl/Tree.vok theories/Refl/Tree.required_vos: theories/Refl/Tree.v theories/Refl/Base.vos
-theories/Refl/TreeProofs.vo theories/Refl/TreeProofs.glob theories/Refl/TreeProofs.v.beautified theories/Refl/TreeProofs.required_vo: theories/Refl/TreeProofs.v theories/Refl/Base.vo theories/Refl/Tree.vo
-theories/Refl/TreeProofs.vio: theories/Refl/TreeProofs.v theories/Refl/Base.vio theories/Refl/Tree.vio
-theories/Refl/TreeProofs.vos theories/Refl/TreeProofs.vok theories/Refl/TreeProofs.required_vos: theories/Refl/TreeProofs.v theories/Refl/Base.vos theories/Refl/Tree.vos
+theories/Refl/TreeProofs.vo theories/Refl/TreeProofs.glob theories/Refl/TreeProofs.v.beautified theories/Refl/TreeProofs.required_vo: theories/Refl/TreeProofs.v theories/Refl/Base.vo theories/Refl/BaseProofs.vo theories/Refl/Tree.vo
+theories/Refl/TreeProofs.vio: theories/Refl/TreeProofs.v theories/Refl/Base.vio theories/Refl/BaseProofs.vio theories/Refl/Tree.vio
+theories/Refl/TreeProofs.vos theories/Refl/TreeProofs.vok theories/Refl/TreeProofs.required_vos: theories/Refl/TreeProofs.v theories/Refl/Base.vos theories/Refl/BaseProofs.vos theories/Refl/Tree.vos
